@@ -59,6 +59,7 @@ func (ts *TermStore) mk(op, sortS string, args ...*Node) *Node {
 
 // Leaf constant symbol (declared).
 func (ts *TermStore) Const(name, sortS string) *Node {
+	name = sanitize(name)
 	if _, ok := ts.decls[name]; !ok {
 		ts.decls[name] = fmt.Sprintf("(declare-fun %s () %s)", name, sortS)
 		ts.order = append(ts.order, name)
@@ -92,7 +93,7 @@ func sanitize(s string) string {
 	var sb strings.Builder
 	for _, r := range s {
 		switch {
-		case r >= 'a' && r <= 'z', r >= 'A' && r <= 'Z', r >= '0' && r <= '9', r == '_', r == '.', r == '!', r == '$', r == '#':
+		case r >= 'a' && r <= 'z', r >= 'A' && r <= 'Z', r >= '0' && r <= '9', r == '_', r == '.', r == '!', r == '$':
 			sb.WriteRune(r)
 		default:
 			sb.WriteByte('_')
